@@ -128,8 +128,11 @@ def r10_1(ctx):
             continue
         if s.cls == "WRITE_HANDLE":
             # a handle can only come from a create/open site, whose own role and modes are checked; writing through it is
-            # allowed where creating the output is allowed
-            if s.modes <= {"Build", "InMemoryBuild"}:
+            # allowed where creating the output is allowed (a handle created on a temp target in the same function: where
+            # temp targets may be written)
+            if s.role == "TMP" and s.modes <= set(NON_CLEAN):
+                ctx.ok("WRITE_HANDLE(TMP)|%s|modes=%s" % (s.key(), sorted(s.modes)), site=site)
+            elif s.modes <= {"Build", "InMemoryBuild"}:
                 ctx.ok("WRITE_HANDLE|%s|modes=%s" % (s.key(), sorted(s.modes)), site=site)
             else:
                 ctx.violation([s.key(), "modes"], "write through an output handle reachable in mode(s) %s (allowed: Build, InMemoryBuild)" % sorted(s.modes - {"Build", "InMemoryBuild"}), site=site)
@@ -195,7 +198,7 @@ def r06_1(ctx):
         if s.prog.label != "lib" or s.cls not in ("CREATE_TRUNC", "REMOVE", "WRITE_HANDLE", "OTHER_MUTATING"):
             continue
         site = _site_ctx(ctx, s)
-        if s.cls in ("CREATE_TRUNC", "REMOVE") and s.role == "TMP":
+        if s.cls in ("CREATE_TRUNC", "REMOVE", "WRITE_HANDLE") and s.role == "TMP":
             continue      # temp targets are (re)written in verify by design
         if s.cls == "CREATE_TRUNC" and s.role is None and s.body.name == ROLE["create_file"]:
             continue      # TMP-CREATE, checked by R10.2
@@ -213,7 +216,8 @@ def r06_1(ctx):
             flds = st["rv"]["agg"]["fields"]
             i = flds.index("out") if "out" in flds else None
             lv = C.trace(cn, st["rv"]["ops"][i], through_decorators=True,
-                         transparent=lambda t: C.is_transparent(t) or C.callee_name(t) in ("std::result::Result::<T, E>::map",)) if i is not None else []
+                         transparent=lambda t: C.is_transparent(t) or C.callee_name(t) in (
+                             "std::result::Result::<T, E>::map", "std::io::BufReader::<R>::new", "std::io::BufReader::<R>::with_capacity")) if i is not None else []
             if lv and all(leaf_is_call(l, "std::fs::File::open") for l in lv):
                 ctx.ok("Verify.out<-File::open", site=ctx.site(cn, bb))
             else:
@@ -257,6 +261,11 @@ def r06_2(ctx):
             is_len = lambda lv: any(l.kind == "call" and C.callee_name(l.data).endswith("::len") for l in lv) or \
                 any(l.kind == "param" and l.data == p_output for l in lv)
             ge = cmp_holds_edges(wo, lib, "ge", is_rem, is_len)
+            # `rem.checked_sub(len)` is Some exactly when rem >= len
+            CSUB = "std::num::<impl u64>::checked_sub"
+            is_csub = lambda l: l.kind == "call" and C.callee_name(l.data) == CSUB and len(l.data["args"]) == 2 and \
+                is_rem(C.trace(wo, l.data["args"][0], through_fields=True)) and is_len(C.trace(wo, l.data["args"][1]))
+            ge |= enum_edges(wo, lib, "std::option::Option", lambda vs: vs == {"Some"}, src_pred=lambda c: bool(c.src) and all(is_csub(l) for l in c.src))
             rd = try_ok_edges(wo, lib, ("<std::io::BufReader<R> as std::io::Read>::read_exact", "std::io::Read::read_exact"))
             # buffer handed to read_exact
             bufs = set()
@@ -308,6 +317,8 @@ def r06_2(ctx):
                             la, lb = C.trace(wo, l.data["a"]), C.trace(wo, l.data["b"])
                             if is_rem(la) and is_len(lb):
                                 subs.append((sbb, si))
+                        elif is_csub(l):
+                            subs.append((sbb, si))      # rem = rem.checked_sub(len) payload
                 cut = set()
                 same_block = False
                 for sbb, si in subs:
@@ -820,8 +831,18 @@ def r09_3(ctx):
         return
     p_contents = wt.param_index_by_name("contents")
     _write_gate(ctx, wt, "temp", ws, lambda t: True, lambda lv: any(l.kind == "param" and l.data == p_contents for l in lv))
+    is_contents = lambda op: any(l.kind == "param" and l.data == p_contents for l in C.trace(wt, op))
     for bb, t in ws:
-        if len(t["args"]) > 1 and any(l.kind == "param" and l.data == p_contents for l in C.trace(wt, t["args"][1])):
+        if C.callee_name(t) != "std::fs::write":
+            # create + write through the handle: the content operands are those of the handle writes that derive from this create
+            hw = [s for s in fs_inventory(ctx) if s.cls == "WRITE_HANDLE" and s.body is wt and s.handle_from and
+                  any(x.body is wt and x.bb == bb for x in s.handle_from)]
+            if hw and all(len(s.obj["args"]) > 1 and is_contents(s.obj["args"][1]) for s in hw):
+                ctx.ok("temp|written content is the contents parameter (through the created handle)", site=ctx.site(wt, bb))
+            else:
+                ctx.violation(["temp", "content"], "write_temp_file creates the temp file but does not write exactly its contents parameter "
+                              "through the created handle", site=ctx.site(wt, bb))
+        elif len(t["args"]) > 1 and is_contents(t["args"][1]):
             ctx.ok("temp|written content is the contents parameter", site=ctx.site(wt, bb))
         else:
             ctx.violation(["temp", "content"], "write_temp_file writes something other than its contents parameter", site=ctx.site(wt, bb))
